@@ -333,6 +333,9 @@ func runRename(res *vh.Result, seed uint64, n int, known bool, outDir string, ki
 	for _, k := range kws {
 		kh = append(kh, hexd([]byte(k)))
 	}
+	if kind == "none" {
+		return
+	}
 	if kind == "print" {
 		fin.Close()
 		fout.Close()
